@@ -609,6 +609,21 @@ def ge_atom(left_pred, right_pred):
     return cmp_atom(left_pred, right_pred, (ast.GtE,), (ast.Lt,))
 
 
+def nonempty_atom(pred):
+    """atom "the container e (pred(e)) is non-empty": e, bool(e), len(e) > 0, len(e) != 0, len(e) >= 1; negations: not e,
+    len(e) == 0, len(e) < 1"""
+    is_len = lambda x: isinstance(x, ast.Call) and isinstance(x.func, ast.Name) and x.func.id == "len" and len(x.args) == 1 and pred(x.args[0])
+    zero = lambda x: isinstance(x, ast.Constant) and x.value == 0 and not isinstance(x.value, bool)
+    one = lambda x: isinstance(x, ast.Constant) and x.value == 1 and not isinstance(x.value, bool)
+    t = truthy_atom(pred)
+    c0 = cmp_atom(is_len, zero, (ast.Gt, ast.NotEq), (ast.Eq, ast.LtE))
+    c1 = cmp_atom(is_len, one, (ast.GtE,), (ast.Lt,))
+
+    def atom(x):
+        return t(x) or c0(x) or c1(x)
+    return atom
+
+
 def none_atom(pred):
     """atom `e is None` (negation: `e is not None`); also `e == None`"""
     return cmp_atom(pred, lambda r: isinstance(r, ast.Constant) and r.value is None, (ast.Is, ast.Eq), (ast.IsNot, ast.NotEq),
